@@ -29,7 +29,7 @@ META['explanation'] += ' ' + 'R10: timestamp / flag primitives (C11.R4/R5). R11:
 
 META['explanation'] += ' ' + 'R14: numeric presence by truth value (shared with C01.R14). R15: ECDSA points (shared with C07.R12).'
 
-META['explanation'] += ' ' + 'R16: no local-time API (shared with C11.R3). R17: identification string, parser and composer evaluated (shared with C07.R6). R18: no strip / case mapping / replace inside the composer primitives (shared with C11.R12).'
+META['explanation'] += ' ' + 'R16: no local-time API (shared with C11.R3). R17: identification string, parser and composer evaluated (shared with C07.R6). R18: no strip / case mapping / replace inside the composer primitives (shared with C11.R12). R19: JSON valued fields write every member they hold (shared with C18.R13).'
 
 ZONE_LITERALS = ('GMT', 'UTC', "Z'", '+0000', '+00:00')
 
@@ -74,6 +74,9 @@ def check(ctx, report):
     from .c07 import banner
     banner(ctx, report, RULE='C05.R17')
     # what the composer primitives join is what the items hold (rule shared with C11.R12)
+    # JSON valued fields: the canonical text holds every member the object holds (evaluation shared with C18.R13)
+    from .c18 import json_fields_composer
+    json_fields_composer(ctx, report, RULE='C05.R19')
     from .c11 import octets_unchanged
     octets_unchanged(ctx, report, RULE='C05.R18', classes=('ComposerBase', 'ComposerBinary', 'ComposerText'),
                      title='the composer primitives write the items they are given unchanged (no strip / case mapping / replace on composed data)')
